@@ -339,6 +339,12 @@ func (kr *KeyRegistry) LatestDataKey() (*pb.DataKey, error) {
 	if valid {
 		return key, nil
 	}
+	if kr.opt.ReadOnly {
+		// A read-only registry has no file to append a new key to, and nothing is written that
+		// would need one: hand out the newest key there is. Tables are opened with the key named
+		// in the MANIFEST anyway.
+		return kr.dataKeys[kr.nextKeyID], nil
+	}
 	k := make([]byte, len(kr.opt.EncryptionKey))
 	iv, err := y.GenerateIV()
 	if err != nil {
